@@ -478,7 +478,7 @@ def scandat(repofiles):
         lines = fp.readlines()
         fp.close()
         if lines:
-            fn, startpos, endpos, sum = lines[-1].split()
+            fn, startpos, endpos, sum = lines[-1].rsplit(None, 3)
             startpos = int(startpos)
             endpos = int(endpos)
 
@@ -703,7 +703,7 @@ def do_recover(options):
             with open(datfile) as fp:
                 truth_dict = {}
                 for line in fp:
-                    fn, startpos, endpos, sum = line.split()
+                    fn, startpos, endpos, sum = line.rsplit(None, 3)
                     startpos = int(startpos)
                     endpos = int(endpos)
                     filename = os.path.join(options.repository,
@@ -763,7 +763,7 @@ def do_verify(options):
     datfile = os.path.splitext(repofiles[0])[0] + '.dat'
     with open(datfile) as fp:
         for line in fp:
-            fn, startpos, endpos, sum = line.split()
+            fn, startpos, endpos, sum = line.rsplit(None, 3)
             startpos = int(startpos)
             endpos = int(endpos)
             filename = os.path.join(options.repository,
